@@ -3,7 +3,7 @@ CONSTANTS
   VALS = {"v1", "v2", "v3"}
   FORD <- c_FORD
   TOKENS = {"t1", "t2"}
-  FIX = {}
+  FIX = {"FROMTO", "WINDOW", "L26"}
   CFGS <- g_CFGS
   PSS <- g_PSS
   PSS2 <- g_PSS2
@@ -14,6 +14,8 @@ CONSTANTS
   MAXTX = 3
   MAXOPS = 26
   MAXRESTART = 2
+  UPDENDS = {3, 4, 5, 7, 8}
+  MAXUPD = 1
   SECONDBAD = FALSE
   FAILBUDGET = 2
 INVARIANTS EmitAtDepth
